@@ -1,7 +1,7 @@
 /-
 C07 helper definitions: map-level vocabulary of the property theorems.
 -/
-import ElvProofs.C07.Assoc6
+import ElvProofs.C07.Without4
 namespace C07
 open Go Gen.C07Bits
 
@@ -21,5 +21,24 @@ structure WFMap (eq : K → K → Bool) (hashf : K → UInt32) (m : HashMap K V)
 /-- enough recursion budget for `Assoc` on any well-formed map -/
 def assocFuel : Nat := 16
 
+
+theorem wf_empty (eq : K → K → Bool) (hashf : K → UInt32) :
+    WF eq hashf 0 (emptyBitmapNode : Node K V) := by
+  refine WF.bitmap (by omega) (by simp [rank_zero]) ?_ ?_ ?_
+  · intro c _ _ _ hs
+    simp [slot, hasBit_zero] at hs
+  · intro c _ _ hs
+    simp [slot, hasBit_zero] at hs
+  · intro c _ _ hs
+    simp [slot, hasBit_zero] at hs
+
+theorem wfmap_of_root {eq : K → K → Bool} {hashf : K → UInt32} {m : HashMap K V}
+    (hm : WFMap eq hashf m) (n' : Node K V) (del : Bool) (hwf : WF eq hashf 0 n')
+    (hsize : n'.toAList.length + (if del then 1 else 0) = m.root.toAList.length) :
+    WFMap eq hashf ⟨if del then m.count - 1 else m.count, n', m.nilV⟩ := by
+  refine ⟨hwf, ?_⟩
+  have hcount := hm.count
+  simp only [HashMap.toAList, List.length_append, List.length_map] at hcount ⊢
+  cases del <;> simp at hsize ⊢ <;> omega
 
 end C07
